@@ -839,6 +839,19 @@ fn fault_free_settings(reg: &PortableRegistry, seed: u64, n_random: usize) -> Ve
     out
 }
 
+/// `ensure_unique_type_paths` as an input transformation; `None` if it fails or panics
+/// (the failure itself is reported by the fault-free case on the raw registry).
+fn dedup_on_execution_thread(reg: &PortableRegistry) -> Option<PortableRegistry> {
+    let (r, _) = entropy::execution(7, || {
+        let mut r2 = reg.clone();
+        match entropy::catch(|| ensure_unique_type_paths(&mut r2)) {
+            Ok(Ok(())) => Some(r2),
+            _ => None,
+        }
+    });
+    r.ok().flatten()
+}
+
 pub struct FaultFreeInput {
     pub name: String,
     pub reg: Arc<PortableRegistry>,
@@ -854,8 +867,8 @@ fn fault_free_inputs(w: &World, ctx: &Ctx) -> Vec<FaultFreeInput> {
     }
     // de-duplicated variants of the registries with clashing paths
     for e in w.dups.iter() {
-        let mut r = e.reg.clone();
-        if ensure_unique_type_paths(&mut r).is_ok() {
+        // the system under test only ever runs on execution threads, under catch
+        if let Some(r) = dedup_on_execution_thread(&e.reg) {
             v.push(FaultFreeInput {
                 name: format!("{}+dedup", e.name),
                 reg: Arc::new(r),
@@ -884,10 +897,9 @@ fn fault_free_inputs(w: &World, ctx: &Ctx) -> Vec<FaultFreeInput> {
         let pairs = 1 + rng.usize_below(3);
         let r = c06::inject_path_clash(&e.reg, &mut rng, pairs);
         let (name, r) = if rng.chance(1, 2) {
-            let mut r2 = r.clone();
-            match entropy::catch(|| ensure_unique_type_paths(&mut r2)) {
-                Ok(Ok(())) => (format!("derived:clash#{i}+dedup:{}", e.name), r2),
-                _ => (format!("derived:clash#{i}:{}", e.name), r),
+            match dedup_on_execution_thread(&r) {
+                Some(r2) => (format!("derived:clash#{i}+dedup:{}", e.name), r2),
+                None => (format!("derived:clash#{i}:{}", e.name), r),
             }
         } else {
             (format!("derived:clash#{i}:{}", e.name), r)
@@ -1232,17 +1244,48 @@ pub fn check(ctx: &Ctx) -> i32 {
     }
 
     // ---- configuration 2: one fault per run ----
-    // only bases that are fault-free themselves, under both base settings
-    let base_settings = vec![
-        (Switches::standard(), standard_ops()),
-        (alt_switches(), bit_order_substitutes()),
-    ];
+    // only bases that are fault-free themselves, under all base settings
     let bases = fault_bases(&w, ctx);
-    let mut usable: Vec<&Base> = vec![];
+    let settings_for = |bi: usize, b: &Base| -> Vec<(Switches, Vec<Op>)> {
+        // third setting: substitutes (pass-through, no declared generics) for up to two present
+        // struct/enum paths plus a type-specific derive - exercises the "not generated because
+        // substituted" path under faults; no recursive derives (the property's quantifier)
+        let mut rng = Rng::new(mix(ctx.seed, tag("C10-base-settings"), bi as u64));
+        let gen_paths: Vec<String> = b
+            .reg
+            .types
+            .iter()
+            .filter(|t| refmodel::is_generated_kind(&t.ty))
+            .map(|t| refmodel::path_text(&t.ty))
+            .collect();
+        let mut ops3 = standard_ops();
+        let nsub = 2.min(gen_paths.len());
+        let chosen = rng.subset(&gen_paths, nsub);
+        for (i, p) in chosen.iter().enumerate() {
+            ops3.push(Op::SubInsert {
+                src: p.clone(),
+                tgt: format!("::subst::S{i}"),
+            });
+        }
+        if !gen_paths.is_empty() {
+            ops3.push(Op::DerivesFor {
+                path: rng.pick(&gen_paths).clone(),
+                items: vec!["Clone".into()],
+                recursive: false,
+            });
+        }
+        vec![
+            (Switches::standard(), standard_ops()),
+            (alt_switches(), bit_order_substitutes()),
+            (Switches::standard(), ops3),
+        ]
+    };
+    let mut usable: Vec<(&Base, Vec<(Switches, Vec<Op>)>)> = vec![];
     let mut excluded: Vec<String> = vec![];
-    for b in &bases {
+    for (bi, b) in bases.iter().enumerate() {
+        let sets = settings_for(bi, b);
         let mut ok = true;
-        for (sw, ops) in &base_settings {
+        for (sw, ops) in &sets {
             let c = Case {
                 reg_name: b.name.clone(),
                 reg: b.reg.clone(),
@@ -1256,7 +1299,7 @@ pub fn check(ctx: &Ctx) -> i32 {
             }
         }
         if ok {
-            usable.push(b);
+            usable.push((b, sets));
         } else {
             excluded.push(b.name.clone());
         }
@@ -1264,7 +1307,7 @@ pub fn check(ctx: &Ctx) -> i32 {
     let mut fault_cases: Vec<Case> = vec![];
     let mut per_base: Vec<Value> = vec![];
     let mut exhaustive_bases = 0;
-    for (bi, b) in usable.iter().enumerate() {
+    for (bi, (b, base_settings)) in usable.iter().enumerate() {
         let mut faults = all_faults(&b.reg);
         let total = faults.len();
         if !b.exhaustive {
@@ -1280,11 +1323,14 @@ pub fn check(ctx: &Ctx) -> i32 {
         }
         per_base.push(json!({"base": b.name, "types": b.reg.types.len(), "fault_sites_total": total, "fault_sites_run": faults.len(), "exhaustive": b.exhaustive || faults.len() == total}));
         for (k, f) in faults.into_iter().enumerate() {
-            // alternate the two base settings over the faults; settings faults use both
-            let which = if matches!(f, Fault::NoCompactPath | Fault::NoBitsPath) {
-                vec![0, 1]
+            // rotate the base settings over the faults; faults in the settings themselves, and
+            // (thorough tier, small bases) all faults, run under every base setting
+            let all = matches!(f, Fault::NoCompactPath | Fault::NoBitsPath)
+                || (ctx.tier == Tier::Thorough && b.reg.types.len() <= 300);
+            let which: Vec<usize> = if all {
+                (0..base_settings.len()).collect()
             } else {
-                vec![k % 2]
+                vec![k % base_settings.len()]
             };
             for s in which {
                 fault_cases.push(Case {
